@@ -17,7 +17,7 @@ import (
 func TestVerifC14(t *testing.T) {
 	vfMain(t, vfCheck{
 		ID: "C14", Level: "exploration",
-		Rule: "per burst: 1..8 handles are opened (phased), then ONE stream write carries for every handle k<=64 WRITEs to disjoint ranges (+ j READs) followed by its CLOSE, interleaved across handles, with no waiting; handler ReadAt/WriteAt sleep 0..2ms and the worker hooks delay rw packets. Oracles: every READ/WRITE status OK, final content contains every write, instrumented handler objects saw no ReadAt/WriteAt in flight at, or after, Close. A class is (server, allocator, handles, depth bucket); non-trivial when reads/writes were still in flight when the dispatcher reached a CLOSE (the barrier had to wait).",
+		Rule:        "per burst: 1..8 handles are opened (phased), then ONE stream write carries for every handle k<=64 WRITEs to disjoint ranges (+ j READs) followed by its CLOSE, interleaved across handles, with no waiting; handler ReadAt/WriteAt sleep 0..2ms and the worker hooks delay rw packets. Oracles: every READ/WRITE status OK, final content contains every write, instrumented handler objects saw no ReadAt/WriteAt in flight at, or after, Close. A class is (server, allocator, handles, depth bucket); non-trivial when reads/writes were still in flight when the dispatcher reached a CLOSE (the barrier had to wait).",
 		Assumptions: []string{"race detector on", "order ids are assigned in stream order (INIT=1), which lets the hook log identify the CLOSE packets"},
 		Units: func(tier vfTier, seed uint64) int {
 			if tier == vfThorough {
